@@ -35,10 +35,14 @@ def check(ctx):
         if mixin not in c.mro() or c is mixin:
             continue
         constructed = False
-        for mn in ('__init__', 'set_tag'):
-            f = c.methods.get(mn)
-            if f is not None and 'Encoding.CONSTRUCTED' in ast.unparse(f):
-                constructed = True
+        for b in c.mro():
+            # the class itself or one of its bases / mixins other than the primitive-or-constructed string base
+            if not hasattr(b, 'methods') or b.name in ('Type', 'PrimitiveOrConstructedType', 'object'):
+                continue
+            for mn in ('__init__', 'set_tag'):
+                f = b.methods.get(mn)
+                if f is not None and 'Encoding.CONSTRUCTED' in ast.unparse(f):
+                    constructed = True
         if not constructed:
             continue
         n1 += 1
